@@ -433,6 +433,13 @@ func (tc *tableCollector) collectFromNode(node ast.Node) {
 		}
 	case *ast.CommonTableExpr:
 		tc.collectFromNode(n.Statement)
+	case *ast.MergeStatement:
+		if n.TargetTable.Name != "" {
+			tc.tables[n.TargetTable.Name] = true
+		}
+		if n.SourceTable.Name != "" {
+			tc.tables[n.SourceTable.Name] = true
+		}
 	case *ast.SetOperation:
 		tc.collectFromNode(n.Left)
 		tc.collectFromNode(n.Right)
@@ -517,6 +524,13 @@ func (qtc *qualifiedTableCollector) collectFromNode(node ast.Node) {
 		}
 	case *ast.CommonTableExpr:
 		qtc.collectFromNode(n.Statement)
+	case *ast.MergeStatement:
+		if n.TargetTable.Name != "" {
+			qtc.addTable(n.TargetTable.Name)
+		}
+		if n.SourceTable.Name != "" {
+			qtc.addTable(n.SourceTable.Name)
+		}
 	case *ast.SetOperation:
 		qtc.collectFromNode(n.Left)
 		qtc.collectFromNode(n.Right)
@@ -628,6 +642,16 @@ func (cc *columnCollector) collectFromNode(node ast.Node) {
 		}
 	case *ast.CommonTableExpr:
 		cc.collectFromNode(n.Statement)
+	case *ast.SetClause:
+		if n.Column != "" {
+			cc.columns[n.Column] = true
+		}
+	case *ast.MergeAction:
+		for _, col := range n.Columns {
+			if col != "" {
+				cc.columns[col] = true
+			}
+		}
 	case *ast.SetOperation:
 		cc.collectFromNode(n.Left)
 		cc.collectFromNode(n.Right)
@@ -785,6 +809,16 @@ func (qcc *qualifiedColumnCollector) collectFromNode(node ast.Node) {
 		}
 	case *ast.CommonTableExpr:
 		qcc.collectFromNode(n.Statement)
+	case *ast.SetClause:
+		if n.Column != "" {
+			qcc.addColumn("", n.Column)
+		}
+	case *ast.MergeAction:
+		for _, col := range n.Columns {
+			if col != "" {
+				qcc.addColumn("", col)
+			}
+		}
 	case *ast.SetOperation:
 		qcc.collectFromNode(n.Left)
 		qcc.collectFromNode(n.Right)
